@@ -44,6 +44,7 @@ for n in $names; do
   grep -q "features enable,verif" $d/run_demo.sh 2>/dev/null && feat="--features enable,verif"
   f2=$(grep -o -- "--features [A-Za-z0-9_/,-]*" $d/run_demo.sh 2>/dev/null | head -1)
   [ -n "$f2" ] && feat="$f2"
+  grep -q -- "--release" $d/run_demo.sh 2>/dev/null && feat="$feat --release"
   # only the main demo decides; auxiliary tests (e.g. seeded_simple) may pass either way
   main="--test seeded_demo"
   t0=$(date +%s)
